@@ -82,6 +82,8 @@ func c20Invalid(c compress.Codec) [][]byte {
 			out = append(out, append([]byte(nil), valid[:cut]...))
 		}
 	}
+	// a complete valid frame followed by garbage
+	out = append(out, append(append([]byte(nil), valid...), 0xde, 0xad, 0xbe, 0xef, 0x00, 0x01, 0x02, 0x03))
 	for _, pos := range []int{0, len(valid) / 2, len(valid) - 1} {
 		if pos >= 0 && pos < len(valid) {
 			f := append([]byte(nil), valid...)
@@ -249,6 +251,32 @@ func c20Run(x *engine.X) {
 			}
 		}
 	}
+	// an Encode result stays decodable while other calls are made on the codec:
+	// a := Encode(x); Encode(y); Decode(a) == x, for every pair, with the
+	// zero-capacity destinations that make the codec allocate the output itself
+	for i, in := range c20Inputs {
+		for _, j := range []int{3, 5} { // second input: 64 KiB of zeros, 300 bytes of text
+			for dk := 0; dk <= 1; dk++ {
+				x.AddEvals(1)
+				a, err := codec.Encode(c20Dst(dk, 0, nil), in)
+				if err != nil {
+					x.Failf("encode-failed", shape, "Encode(%s): %v", c20InputNames[i], err)
+					return
+				}
+				if _, err := codec.Encode(c20Dst(dk, 0, nil), c20Inputs[j]); err != nil {
+					x.Failf("encode-failed", shape, "Encode(%s): %v", c20InputNames[j], err)
+					return
+				}
+				r := c20Call(func() ([]byte, error) { return codec.Decode(nil, a) })
+				if r.timedOut || r.panicked != nil || r.err != nil || !bytes.Equal(r.out, in) {
+					x.Failf("probe", fmt.Sprintf("%s;input=%s;delayed", shape, c20InputNames[i]),
+						"after %v: a := Encode(%s); Encode(%s); Decode(a): err=%v panic=%v got %d bytes want %d (first diff at %d)",
+						hist, c20InputNames[i], c20InputNames[j], r.err, r.panicked, len(r.out), len(in), firstDiff(r.out, in))
+					return
+				}
+			}
+		}
+	}
 	x.Outcome("ok")
 }
 
@@ -279,7 +307,7 @@ func init() {
 		ID:    "C20",
 		Level: "model_checking",
 		MC:    true,
-		Rule: "7 codecs (snappy, gzip, brotli, zstd, lz4 fastest, lz4 HC, uncompressed) x {always-reuse, never-reuse} instance pools x ALL histories of <=2 (3 thorough) operations from {Encode(x), Decode(Encode(x)) for 7 inputs incl. empty / 64 KiB of zeros / 64 KiB+1 incompressible; Decode(y) for 10 invalid inputs: empty, garbage, truncated and bit-flipped frames} on one shared codec value, then the probe Decode(Encode(x)) for every x x 6 destination-buffer kinds (nil, empty, cap 1, exact, 4x, alias of the previous result) and every destination capacity 0..len+2 for small inputs; " +
+		Rule: "7 codecs (snappy, gzip, brotli, zstd, lz4 fastest, lz4 HC, uncompressed) x {always-reuse, never-reuse} instance pools x ALL histories of <=2 (3 thorough) operations from {Encode(x), Decode(Encode(x)) for 7 inputs incl. empty / 64 KiB of zeros / 64 KiB+1 incompressible; Decode(y) for 11 invalid inputs: empty, garbage, truncated and bit-flipped frames, a valid frame followed by garbage} on one shared codec value, then the probe Decode(Encode(x)) for every x x 6 destination-buffer kinds (nil, empty, cap 1, exact, 4x, alias of the previous result) and every destination capacity 0..len+2 for small inputs, and a := Encode(x); Encode(y); Decode(a) for every x and two y; " +
 			"non-trivial = non-empty history",
 		Assumptions: []string{
 			"decoding garbage may return an error, bytes, or panic (recovered by the harness): only a Decode that does not return (20 s) or an effect on later calls is a violation",
